@@ -7,10 +7,10 @@ import vlib
 META = {
     "property_id": "C03",
     "level": "proof",
-    "technique": "Coq theorems over an executable model of reduceAny/switchDimension/extract (all documents of any depth, any list of dimensions, any selection) + translator tie (Go source of keySet/parsesAll/switchDimension/reduceAny/extract regenerated as Gallina, proved equal to the model; the recursion equation of reduceAny proved to determine the function) + in-kernel correspondence of model, resolution spec, the generator's by-construction expectation and the real gconfig on generated dimensioned YAML documents x selections through builder default and environment",
+    "technique": "Coq theorems over an executable model of reduceAny/switchDimension/extract/FromBytes (all documents of any depth, any list of dimensions, any selection), an independent inductive resolution relation (Resolves/Fails) proved equivalent to the model on well-formed documents, + semantic translator tie (Go source of reduceAny, extract, lookupEnv, Builder.FromBytes and all helpers regenerated as Gallina; proved for all arguments to compute the model, whatever helpers/loop forms the source uses; the recursion equation of reduceAny proved to determine the function) + in-kernel correspondence of model, resolution spec, the generator's by-construction expectation and the real gconfig on generated dimensioned YAML documents x selections through builder default, environment and flag",
     "design_ref": "DESIGN.md §4 C03",
-    "level_text": "Proof: GConfProofs.v shows for every list of dimensions, every selection and every well-formed document (WF = the property's quantifier; unbounded depth and width) that the model of builder.go's reduceAny equals resolve_spec, the structural resolution that replaces each dimension switch by its active entry (selected value, else default, else failure) and keeps other maps and lists with children resolved; that the active entry of a well-formed switch is unique (so Go's map iteration order cannot matter); that Get reads exactly the subtree at the dotted path; that loading fails iff a switch on the selected path has no active entry; and that entries of switches other than the active one never influence the result (Props/C03.v, closed under the global context). Resolution is also shown independent of the order in which Go ranges over each map (teq). The pinned code is kept as reduce_any_orig with three machine-checked counterexamples. The model is tied to the current source (T) by harness/cmd/xlate_gconf, which regenerates keySet, parsesAll, switchDimension, reduceAny and extract from builder.go/config.go as Gallina at every check, and coq/ties/Tie_C03.v, which proves them equal to the model (reduceAny: the model satisfies the recursion equation read off the source, and that equation has a unique solution), and (C) by loading generated documents with the real library (public API only: WithDimension, FromBytes, GetDimension, Get) under every kind of selection and judging every observation inside Coq against the spec, the model and the generator's own expectation.",
-    "level_note": "Trusted: Coq 8.16.1 kernel + vm_compute; the translator xlate_gconf and its Go primitives (GConfGenPrims.v: map/slice/range semantics) — validated by the correspondence run; fidelity of the parts of GConfModel.v the translator does not read (initFlag/lookupEnv, strings.Split), checked by correspondence; yaml.v3 decoding of the generated text into the intended tree (round trip checked per case) and the yaml re-marshal inside Get for `any`/string; ParseGeneric of the generated enums is an oracle recorded per case; Go harness. No axioms.",
+    "level_text": "Proof: GConfProofs.v shows for every list of dimensions, every selection and every well-formed document (WF = the property's quantifier; unbounded depth and width) that the model of builder.go's reduceAny equals resolve_spec, the structural resolution that replaces each dimension switch by its active entry (selected value, else default, else failure) and keeps other maps and lists with children resolved; that the active entry of a well-formed switch is unique (so Go's map iteration order cannot matter); that Get reads exactly the subtree at the dotted path; that loading fails iff a switch on the selected path has no active entry; and that entries of switches other than the active one never influence the result (Props/C03.v, closed under the global context). Resolution is also shown independent of the order in which Go ranges over each map (teq). The pinned code is kept as reduce_any_orig with three machine-checked counterexamples. The resolution is also characterised by an inductive relation written from the property text (GConfRelSpec.Resolves / Fails, sharing no classifying helper with the model) and proved equivalent to the model on well-formed documents, composed with Get-at-path and with the failure conditions of loading (C03_resolves_iff, C03_load_get, C03_load_error_iff). The model is tied to the current source (T) by harness/cmd/xlate_gconf, which regenerates reduceAny, extract, lookupEnv, Builder.FromBytes and every helper they call from builder.go/config.go as Gallina at every check (loops as a loop combinator, helpers as definitions), and coq/ties/Tie_C03.v, which proves FOR ALL ARGUMENTS that they compute the model (semantic lemmas over arbitrary loop bodies with pointwise side conditions, so renames, helper extraction/inlining, index loops, early-continue, switches and reordered statements keep the tie; reduceAny: the regenerated body is right given a recursive call that is right on the children, hence the model satisfies the recursion equation read off the source and that equation has a unique solution; FromBytes: root map resolved like any other, non-map result rejected, template pass, dimension values), and (C) by loading generated documents with the real library (public API only: WithDimension, FromBytes, GetDimension, Get) under every kind of selection and judging every observation inside Coq against the spec, the model and the generator's own expectation.",
+    "level_note": "Trusted: Coq 8.16.1 kernel + vm_compute; the translator xlate_gconf and its Go primitives (GConfGenPrims.v, GConfLoop.v: map/slice/range/loop semantics; a value handed to the recursive call is not read again by the caller) — validated by the correspondence run; fidelity of the parts of GConfModel.v the translator does not read (initFlag/lookupEnv, strings.Split), checked by correspondence; yaml.v3 decoding of the generated text into the intended tree (round trip checked per case) and the yaml re-marshal inside Get for `any`/string; ParseGeneric of the generated enums is an oracle recorded per case; Go harness. No axioms.",
     "allowed_axioms": [],
 }
 
@@ -130,6 +130,7 @@ def run(ctx):
     if res is None:
         return
     terms, jsons, bad, nt, info, widened = res
+    gl.count_domain(ctx, gl.HEADER, CASE, terms, jsons, 60 if quick else 200)
     indom = [j for j in jsons if j["kind"] != "ood"]
     ctx.cov.update({
         "evaluations": len(jsons),
